@@ -11,6 +11,7 @@
 import ScoresVerif.Gen.Cdf
 import ScoresVerif.Model.CrpsCdf
 import ScoresVerif.Lemmas.Cdf
+import ScoresVerif.Lemmas.CdfSpec
 
 namespace SV.Props.C17
 open SV SV.Model.Cdf SV.Model.CrpsCdf SV.Lemmas.Cdf
@@ -45,6 +46,15 @@ theorem upper_eq_running_max (xs : List Fl) (h : NoInf xs) : finVals (upperRow x
 /-- lower = reverse running minimum of the non-NaN ordinates (the code's `1 − fmax.accumulate(1 − flip)`) -/
 theorem lower_eq_reverse_running_min (xs : List Fl) (h : NoInf xs) : finVals (lowerRow xs) = revMinQ (finVals xs) :=
   lowerRow_finVals xs h
+
+/-- the upper envelope is, position by position, the largest non-NaN ordinate at positions `≤ i`, NaN staying NaN —
+    the index-wise Spec the oracle evaluates -/
+theorem upper_eq_spec (xs : List Fl) (h : NoInf xs) : upperRow xs = SV.Spec.Cdf.upper xs :=
+  SV.Lemmas.CdfSpec.upperRow_eq_spec xs h
+
+/- stretch, not proved (compared by the oracle only):
+   lower_eq_spec_stmt : NoInf xs → lowerRow xs = SV.Spec.Cdf.lower xs
+   fill_eq_spec_stmt  : fillRow thr xs m k = SV.Spec.Cdf.fillRow thr xs m k   (knot-function reading of the four methods) -/
 
 example : NoInf exRow := exRow_noInf
 example : finVals (upperRow exRow) = [0, 1/2, 1/2, 1/2, 1] := by decide +kernel
